@@ -217,3 +217,11 @@ Theorem C06_mux_stranger_needs_ufrag : forall m s sk la src k,
   snd (fst (mux_step (m, s) (Pkt sk la src k))) <> s ->
   mux_extracts k = true /\ k_ufrag k = 1 /\ classify k = CReq.
 Proof. exact mux_stranger_needs_ufrag. Qed.
+
+(* a datagram that is not a success / error response (request, indication, undecodable, non-STUN)
+   never touches pending transactions, check results or rounds -- even when it carries the
+   transaction id of an outstanding transaction (the agent's own check looped back) *)
+Theorem C06_only_responses_touch_transactions : forall s sk la src k, ~ is_response k ->
+  let s' := fst (on_packet s sk la src k) in
+  a_pending s' = a_pending s /\ a_done s' = a_done s /\ a_rounds s' = a_rounds s.
+Proof. exact only_responses_touch_transactions. Qed.
